@@ -4,6 +4,7 @@ p=$1; shift
 cd /verif
 git -C /repo apply "$p" || { echo "patch does not apply"; exit 3; }
 trap 'git -C /repo checkout -- . ; git -C /repo clean -fdq vhost vhost-user-backend 2>/dev/null' EXIT
+trap 'exit 143' INT TERM HUP
 for id in "$@"; do
   out=$(./check $id --tier ${TIER:-quick} 2>&1); rc=$?
   echo "== $id rc=$rc"
